@@ -165,6 +165,12 @@ def solve_one(idx):
         o.status, o.note = "unknown", f"solver error: {e!r}"
     ident = f"{r.contract.func}::{stable_name(o)}"
     in_base = ident in _GEN.get("baseline", ())
+    if not in_base and "@#" in ident:
+        # the statement the obligation is attached to was edited (its text
+        # hash changed): the same kind of obligation of the same function --
+        # same callee / clause index -- was discharged on the pinned tree
+        loose = re.sub(r"@#[0-9a-f]{8}", "@#*", ident)
+        in_base = loose in _GEN.get("baseline_loose", ())
     if o.status == "unknown" and in_base and not hurry:
         # an obligation that is discharged on the pinned tree: give it the
         # thorough budget before it is reported as no longer provable
@@ -208,6 +214,8 @@ def verify_all(cons, tier, pid, jobs):
     _GEN["results"], _GEN["index"] = results, index
     _GEN["found"] = mp.Value("i", 0)
     _GEN["baseline"] = load_baseline(pid)
+    _GEN["baseline_loose"] = {re.sub(r"@#[0-9a-f]{8}", "@#*", i)
+                              for i in _GEN["baseline"]}
     _GEN["known"] = {k["key"] for k in load_known() if k["property"] == pid}
     _GEN["known_clauses"] = {k["key"]: k.get("clauses")
                              for k in load_known() if k["property"] == pid}
